@@ -120,3 +120,9 @@ chk("C15", "exploration", "E4",
     "Genomes (start, corner, unusual layouts, every gene weight / mutation number / trait parameter replaced in turn by every value of a 21-value hard-float alphabet, every scalar activation type, trait-reference patterns, GenomeSpace states of three families, modular genomes) through plain Write->Read / ReadGenome and YAML; organisms through MarshalBinary/UnmarshalBinary; every multiset of <= 3 genomes of a 6-member family through Population.Write->ReadPopulation; all 2^9 small feed-forward models plus a modular one through WriteModel->ReadFMNSModel with bit-equal outputs; experiments (all single-trial shapes of <= 2/3 generations and combinations) through Write->Read with records, champions and 8 derived statistics compared.",
     "Alphabets bounded; sign of a zero weight not compared; experiment records always carry a champion.",
     "DESIGN.md section 3 C15")
+
+chk("C20", "model_checking", "E1",
+    "complete enumeration of the tree of evaluator answers (environment choices) on the real Execute, compared with a reference protocol state machine",
+    "For NumRuns x NumGenerations in {0..3}^2 (0..4 thorough), observer present/absent, both executors and a context cancelled before the start or not, EVERY script of evaluator answers {unsolved, solved, error, cancel+unsolved, cancel+solved} is executed on the real Experiment.Execute (4-organism XOR population) - the tree is enumerated completely, no deviation bound. A reference state machine written from the statement gives the exact notification / evaluation sequence for undisturbed runs and the abort rule (same prefix, no further evaluation, the evaluator's error or context.Canceled) for aborted ones, the recorded trials, and the population handling (fresh per trial, start topology, turnover between unsolved generations, none after solved).",
+    "Runs/generations bounded by 3 (4); the random draws of evolution are not enumerated here (they do not influence the protocol).",
+    "DESIGN.md section 3 C20")
